@@ -62,6 +62,15 @@ func trimLangStack(st []byte) string {
 
 // faithful is oracle 2: the significant tokens of an accepted source must be exactly the
 // tokens of the canonical rendering of the returned tree.
+// lexicallyClean: a text in which the scanner finds a defect (NUL, invalid UTF-8, unterminated comment or
+// literal, invalid escape, invalid octal digit) cannot be "recorded exactly": whatever the scanner skipped or
+// guessed is missing from the tree. Such a text must produce an error, not a tree.
+func lexicallyClean(t ev.TB, src string, js []byte, origin string) {
+	if _, n := schema.Tokens(src); n > 0 {
+		ev.Violation(t, c15, "lexical-error-accepted", c15case{Source: clipSrc(src), Note: origin, Got: clipSrc(string(js))}, "the text has %d lexical error(s) (as reported by the scanner) but the parser returned a tree and no error", n)
+	}
+}
+
 func faithful(t ev.TB, src string, js []byte, origin string) {
 	tree, err := schema.FromJSON(js)
 	kase := c15case{Source: clipSrc(src), Note: origin, Got: clipSrc(string(js))}
@@ -173,7 +182,9 @@ func firstDiffBytes(a, b []byte) int {
 }
 
 var injectTokens = []string{"1.5", "'c'", "`raw`", "0x10", "017", "1_000", "0b11", "9223372036854775808", "18446744073709551616", "\"str\"", "ünï", "-", "=", ";", ",", "(", ")", "{", "}", "[", "]", ".", "<", ">",
-	"enum", "oneway", "message", "any", "import", "options", "struct", "service", "subservice", "int32", "X", "0", "7", "@", "#", "\\", "'ab'", "\"unterminated", "/* unterminated", "1e", "0x"}
+	"enum", "oneway", "message", "any", "import", "options", "struct", "service", "subservice", "int32", "X", "0", "7", "@", "#", "\\", "'ab'", "\"unterminated", "/* unterminated", "1e", "0x",
+	// defects only the scanner sees while the token stream stays grammatical
+	"09", "08", "\"a\\qb\"", "\x00", "\"\xff\"", "/* a \x00 b */", "// \x00\n", "\"\x00\""}
 
 func TestC15_TokenMutants(t *testing.T) {
 	ev.Rule(c15, "oracle 2: token-level mutants of generated renderings (delete / duplicate / swap adjacent tokens, replace or insert a token from a hostile alphabet: Float, Char, RawString, non-decimal and oversized integers, non-ASCII identifiers, keywords, punctuation, unterminated literals); the parser must return an error or a tree, never panic, never (nil,nil); when it accepts, the significant tokens of the source must equal the tokens of the canonical printing of the returned tree (subsumes the print-parse-print fixed point); non-trivial = mutant still accepted; distinct by text hash")
@@ -226,6 +237,7 @@ func TestC15_TokenMutants(t *testing.T) {
 		origin := "mutant: " + strings.Join(desc, "; ")
 		js, ok := parse(rt, src, origin)
 		if ok {
+			lexicallyClean(rt, src, js, origin)
 			faithful(rt, src, js, origin)
 		}
 		ev.Case(c15, ev.Hash(src), ok, fmt.Sprintf("mutant:accepted=%v", ok))
